@@ -27,3 +27,37 @@ silent("C19", "twin: iinfo constants", I, "elif maxval > 2 ** 7 - 1:", "elif max
 silent("C19", "twin: reorder equivalent comparison", I, "if maxval >= 2 ** 32:", "if 2 ** 32 <= maxval:")
 silent("C19", "twin: shift constants", I, "elif maxval >= 2 ** 16:", "elif maxval >= 1 << 16:")
 silent("C19", "twin: not/<", I, "elif maxval >= 2 ** 8:", "elif not maxval < 256:")
+
+# ---------------------------------------------------------------- C12 / C11 / C10
+X = "indxio.py"
+fire("C12", "mmap whole file instead of header+size", X, "f.fileno(), buffer_length, flags", "f.fileno(), 0, flags", "R-C12-a")
+fire("C12", "swallow errors in load", X, "        buffer_size = struct.unpack(\"<Q\", f.read(8))[0]\n", "        try:\n            buffer_size = struct.unpack(\"<Q\", f.read(8))[0]\n        except Exception:\n            return {}, 0, None\n", None)
+fire("C12", "version check dropped", X, "        if version != IndxIO.VERSION:\n            raise RuntimeError(\"Unexpected indexed format %s\" % version)\n", "", "R-C12-a")
+fire("C12", "read lengths with f.read after header", X, "        word_size = struct.unpack_from(\"<B\", buf, offset=offset)[0]", "        f.seek(offset)\n        word_size = struct.unpack(\"<B\", f.read(1))[0]", None)
+fire("C12", "size word omits the lengths block", X, "            + len(lengths) * dtype.itemsize  # rowid lengths\n", "", "R-C11-b")
+fire("C12", "mmap length off by header", X, "buffer_length = offset + buffer_size", "buffer_length = buffer_size", "R-C12-a")
+silent("C12", "twin: header constant hoisted", X, "        offset = 16\n", "        HEADER = 16\n        offset = HEADER\n")
+silent("C12", "twin: compare magic with ==", X, "        if f.read(4) != IndxIO.INDEXED_MAGIC:\n            raise RuntimeError(\"Unexpected header\")", "        if f.read(4) == IndxIO.INDEXED_MAGIC:\n            pass\n        else:\n            raise RuntimeError(\"Unexpected header\")")
+
+V.append({"prop": "C11", "name": "symmetric change of entry-count width (round trip blind)", "expect": "fire", "rule": "R-C11-a", "edits": [
+    {"file": X, "old": "f.write(struct.pack(\"<L\", len(index)))", "new": "f.write(struct.pack(\"<Q\", len(index)))"},
+    {"file": X, "old": "            + 4  # index length\n", "new": "            + 8  # index length\n"},
+    {"file": X, "old": "index_length = struct.unpack_from(\"<L\", buf, offset=offset)[0]\n        offset += 4", "new": "index_length = struct.unpack_from(\"<Q\", buf, offset=offset)[0]\n        offset += 8"},
+]})
+fire("C11", "sum(lengths) back to NumPy scalar", X, "int(lengths.sum(dtype=numpy.uint64)) * dtype.itemsize", "sum(lengths) * dtype.itemsize", "R-C11-c")
+fire("C11", "cursor advanced by NumPy scalar again", X, "zip(lengths.tolist(), all_coords)", "zip(lengths, all_coords)", "R-C11-c")
+fire("C11", "big-endian common", X, "            return \"<Q\"\n", "            return \">Q\"\n", "R-C10-c")
+fire("C11", "coordinates written before common", X, "        f.write(struct.pack(ind_format_string, common))\n\n        # Write index\n        index.tofile(f)\n", "        index.tofile(f)\n        f.write(struct.pack(ind_format_string, common))\n", "R-C11-a")
+fire("C11", "reader offset skips a byte", X, "        index_word_size = struct.unpack_from(\"<B\", buf, offset=offset)[0]\n        ind_format_string = IndxIO.format(index_word_size)\n        offset += 1", "        index_word_size = struct.unpack_from(\"<B\", buf, offset=offset)[0]\n        ind_format_string = IndxIO.format(index_word_size)\n        offset += 2", "R-C10-b")
+fire("C11", "seek back to patch size", X, "        if f.tell() != 16 + buffer_size:", "        f.seek(8)\n        if f.tell() != 16 + buffer_size:", "R-C11-e")
+fire("C11", "word size not from fit_dtype", X, "        index_word_size = index_dtype.itemsize\n", "        index_dtype = numpy.dtype(numpy.uint64)\n        index_word_size = index_dtype.itemsize\n", "R-C11-d")
+silent("C11", "twin: sum via tolist", X, "int(lengths.sum(dtype=numpy.uint64)) * dtype.itemsize", "sum(lengths.tolist()) * dtype.itemsize", expect="not-violated")
+silent("C11", "twin: comments/blank lines moved", X, "        # Write index dimensions\n", "\n\n        # dims\n")
+
+fire("C10", "common dropped from word-size choice", X, "max(numpy.max(index), common) if len(index) != 0 else common", "numpy.max(index) if len(index) != 0 else common", "R-C10-e")
+fire("C10", "reader slices ptr:length", X, "rowids = rowid_lists[ptr : ptr + length]", "rowids = rowid_lists[ptr : length]", "R-C10-a")
+fire("C10", "reader keeps file dtype", X, "                rowids = rowids.astype(numpy.uint32)\n", "                pass\n", "R-C10-d")
+fire("C10", "keys left as NumPy rows", X, "all_coords = [tuple(row) for row in index.tolist()]", "all_coords = [tuple(row) for row in index]", "R-C10-d")
+fire("C10", "dtype helper wrong for 2", X, "            return numpy.dtype(numpy.uint16)", "            return numpy.dtype(numpy.uint32)", "R-C10-c")
+fire("C10", "lengths in a different key order", X, "[len(entries[coords]) for coords in list_index]", "[len(entries[coords]) for coords in sorted(list_index)]", None)
+silent("C10", "twin: rename loop variable", X, "        for i in list_index:\n            arr = entries[i]", "        for key in list_index:\n            arr = entries[key]")
